@@ -560,6 +560,39 @@ func (w *world) step(i int, st simcore.Step) bool {
 		}
 		return !run.Stop()
 
+	case "tspace":
+		// DecreaseConcentratedPoolTickSpacing, as the governance handler runs it: on a branch that is written only on
+		// success; a value that is not strictly smaller (or not authorised) must be refused and change nothing
+		p := w.pickPool(st.Arg(0))
+		if p == nil {
+			run.Event("tspace", "skip")
+			return true
+		}
+		var smaller []uint64
+		for _, s := range spacings {
+			if int64(s) < p.spacing {
+				smaller = append(smaller, s)
+			}
+		}
+		nsp := uint64(p.spacing)
+		if len(smaller) > 0 && st.Arg(1) != 3 {
+			nsp = smaller[int(st.Arg(1))%len(smaller)]
+		}
+		cctx, write := n.Ctx.CacheContext()
+		err := n.App.ConcentratedLiquidityKeeper.DecreaseConcentratedPoolTickSpacing(cctx, []cltypes.PoolIdToTickSpacingRecord{{PoolId: p.id, NewTickSpacing: nsp}})
+		switch {
+		case err == nil && int64(nsp) < p.spacing:
+			write()
+			p.spacing = int64(nsp)
+			run.Event("tspace", "ok")
+			run.Probe("tick-spacing-decreased")
+		case err == nil:
+			run.Fail("C07", "tick-spacing", "not-smaller-accepted", "pool %d: tick spacing %d -> %d accepted", p.id, p.spacing, nsp)
+		default:
+			run.Event("tspace", "refused")
+		}
+		return !run.Stop()
+
 	case "swap":
 		return w.swap(i, st, fk, fa)
 	}
